@@ -21,7 +21,8 @@ THEOREMS = ["Yardl.C18.load_ok_sound", "Yardl.C18.every_reachable_package_loaded
             "Yardl.C18.namespace_conflict_is_an_error", "Yardl.C18.missing_import_is_an_error",
             "Yardl.C18.two_cycle_rejected", "Yardl.C18.self_import_rejected",
             "Yardl.C18.cycle_through_second_import_rejected", "Yardl.C18.diamond_accepted",
-            "Yardl.C18.conflict_rejected", "Yardl.C18.deep_chain_rejected", "Yardl.C18.order_dependence_at_limit"]
+            "Yardl.C18.conflict_rejected", "Yardl.C18.deep_chain_rejected", "Yardl.C18.order_dependence_at_limit",
+            "Yardl.C18.every_importer_references_all_its_imports"]
 
 
 def spec(world, root, limit):
@@ -197,7 +198,7 @@ def run(report, tier, seed):
         for k, w in enumerate(twins):
             _judge(report, sc, ybin, lean, w, 0, limit, 100000 + k, rng, seed, layout="groups")
             if spec(w, 0, limit) == {"ok"}:
-                _usable(report, sc, ybin, w, 0, 100000 + k, seed, layout="groups")
+                _usable(report, sc, ybin, w, 0, 100000 + k, seed, layout="groups", lean=lean)
         for idx, world in enumerate(worlds):
             _judge(report, sc, ybin, lean, world, 0, limit, idx, rng, seed)
             # the same world laid out differently on disk: the verdict is about the graph, not about where the directories sit
@@ -211,12 +212,12 @@ def run(report, tier, seed):
                 orders = rng.sample(orders, 12 if quick else 200)
             for combo in orders:
                 k += 1
-                _usable(report, sc, ybin, [{"ns": p["ns"], "imports": list(c)} for p, c in zip(w, combo)], 0, k, seed, layout=("flat", "groups", "deep")[k % 3])
+                _usable(report, sc, ybin, [{"ns": p["ns"], "imports": list(c)} for p, c in zip(w, combo)], 0, k, seed, layout=("flat", "groups", "deep")[k % 3], lean=lean)
         # and random accepted worlds
         acc = [w for w in worlds if 3 <= len(w) <= 8 and spec(w, 0, limit) == {"ok"} and sum(len(p["imports"]) for p in w) >= 3]
         for w in (acc[:10] if quick else acc[:150]):
             k += 1
-            _usable(report, sc, ybin, w, 0, k, seed)
+            _usable(report, sc, ybin, w, 0, k, seed, lean=lean)
         lean.close()
 
 
@@ -266,7 +267,7 @@ def _judge(report, sc, ybin, lean, world, root, limit, idx, rng, seed, permuted=
             report.count(f"error-class.{sorted(s)[0]}-reported-as-{cli}")
 
 
-def _usable(report, sc, ybin, world, root, tag, seed, layout="flat"):
+def _usable(report, sc, ybin, world, root, tag, seed, layout="flat", lean=None):
     """an accepted world is generated (Python) and the package imported: every importer can use the types of what it imports
     (write_world gives every package an alias to a type of each package it imports), whatever the order of the import lists"""
     import subprocess
@@ -294,6 +295,20 @@ def _usable(report, sc, ybin, world, root, tag, seed, layout="flat"):
     except OSError:
         pass
     shutil.rmtree(d, ignore_errors=True)
+    if lean is not None and dump:
+        # env.Namespaces (the order model.json lists them in) is the post-order of parsePackageNamespaces + flattenNamespaces: imports before importers
+        try:
+            got = [int(n["name"][2:]) for n in json.loads(dump)["namespaces"]]
+        except Exception:   # noqa: BLE001
+            got = None
+        reach = _reach(world, root)
+        graph = [[world[x]["ns"], [world[i]["ns"] for i in world[x]["imports"]]] for x in sorted(reach)]
+        m = lean.ask({"op": "namespaces", "graph": graph, "root": world[root]["ns"]})
+        report.count("namespaces.order-compared")
+        if got != m["order"]:
+            report.violation("namespace-order-differs-from-model", dict(replay, model_order=m["order"], tool_order=got, model_references=m["references"],
+                                                                        theorem_or_correspondence="Namespaces.parseNs / flatten vs the namespaces of model.json"),
+                             "the namespaces the passes and generators see are not the post-order of the import graph")
     return dump
 
 
